@@ -221,7 +221,7 @@ def run(seed=0, tier='quick', hints=None, broken=False):
                     viol.append({'site': 'C08:%s:%s:channel-configuration' % (name, bad[0]), 'kind': 'total', 'case': case, 'observed': bad[1], 'expected': bad[2]})
     # configurations without absolute sizes (flips, rotations, rescaling, fractions of the extent, image-only classes)
     # are documented for EVERY volume shape: each runs on strongly anisotropic and thin volumes too
-    thin_shapes = [[40, 6, 3], [3, 40, 6], [6, 3, 40], [32, 32, 4]]
+    thin_shapes = [[40, 6, 3], [3, 40, 6], [6, 3, 40], [32, 32, 4], [12, 1, 9], [9, 12, 1]]
     for name in sorted(CTOR):
         cls = getattr(A, name)
         for kw in configurations(name):
@@ -229,9 +229,11 @@ def run(seed=0, tier='quick', hints=None, broken=False):
                 continue
             for shp, sd in [(shp, sd) for shp in thin_shapes
                             for sd in ([rng.randint(0, 10 ** 6), R.EXT_BASE + 0xFFFF] + ([] if tier == 'quick' else [R.EXT_BASE, R.EXT_BASE + rng.getrandbits(16), rng.randint(0, 10 ** 6)]))]:
+                nth = evals % 3
                 case = {'name': name, 'kw': jsonable(kw), 'shape': shp, 'seed': sd,
                         'dtype': 'uint8' if CTOR[name].get('image') in (None, 'uint8') else {'float': 'float32'}.get(CTOR[name]['image'], CTOR[name]['image']),
-                        'channels': None, 'targets': ['mask', 'keypoints'] if issubclass(cls, A.DualTransform) and name != 'GridDropout' else ['mask'],
+                        # channel layouts in rotation (the mask stays H x W x D): none, three channels, one channel
+                        'channels': None if name == 'NPSNoise' else [None, 3, 1][nth], 'targets': ['mask', 'keypoints'] if issubclass(cls, A.DualTransform) and name != 'GridDropout' else ['mask'],
                         'float_header': False}
                 bad = check_total(case)
                 evals += 1
